@@ -830,7 +830,16 @@ evaluate() const {
       return Result(~r1.as_integer());
 
     case UNARY_MINUS:
-      return (r1._type == RT_real) ? Result(-r1.as_real()) : Result(-r1.as_integer());
+      if (r1._type == RT_real) {
+        return Result(-r1.as_real());
+      } else {
+        // (Results that do not fit are not evaluated, rather than undefined.)
+        long long value;
+        if (__builtin_sub_overflow(0LL, (long long)r1.as_integer(), &value)) {
+          return Result();
+        }
+        return Result(value);
+      }
 
     case UNARY_PLUS:
       return r1;
@@ -843,7 +852,11 @@ evaluate() const {
       if (r1._type == RT_real || r2._type == RT_real) {
         return Result(r1.as_real() * r2.as_real());
       } else {
-        return Result(r1.as_integer() * r2.as_integer());
+        long long value;
+        if (__builtin_mul_overflow((long long)r1.as_integer(), (long long)r2.as_integer(), &value)) {
+          return Result();
+        }
+        return Result(value);
       }
 
     case '/':
@@ -868,14 +881,22 @@ evaluate() const {
       if (r1._type == RT_real || r2._type == RT_real) {
         return Result(r1.as_real() + r2.as_real());
       } else {
-        return Result(r1.as_integer() + r2.as_integer());
+        long long value;
+        if (__builtin_add_overflow((long long)r1.as_integer(), (long long)r2.as_integer(), &value)) {
+          return Result();
+        }
+        return Result(value);
       }
 
     case '-':
       if (r1._type == RT_real || r2._type == RT_real) {
         return Result(r1.as_real() - r2.as_real());
       } else {
-        return Result(r1.as_integer() - r2.as_integer());
+        long long value;
+        if (__builtin_sub_overflow((long long)r1.as_integer(), (long long)r2.as_integer(), &value)) {
+          return Result();
+        }
+        return Result(value);
       }
 
     case '|':
